@@ -32,6 +32,8 @@ impl Fmt {
 pub struct UserData {
     pub text: Option<String>,
     pub color: Option<[u8; 4]>,
+    /// Aseprite 1.3 "properties" (flag 4): size-prefixed maps that readers may skip
+    pub props: Option<Vec<u8>>,
 }
 
 #[derive(Clone, Debug)]
@@ -183,6 +185,27 @@ fn user_data(r: &mut Rng, on: bool) -> Option<UserData> {
         text: if k & 1 != 0 { Some(name(r)) } else { None },
         color: if k & 2 != 0 {
             Some([r.byte(), r.byte(), r.byte(), r.byte()])
+        } else {
+            None
+        },
+        props: if r.chance(1, 4) {
+            // one map (key 0) with `n` (name, type 0x0005 = int32, value) properties
+            let n = r.below(4) as u32;
+            let mut m = Vec::new();
+            m.extend_from_slice(&1u32.to_le_bytes()); // number of maps
+            m.extend_from_slice(&0u32.to_le_bytes()); // map key
+            m.extend_from_slice(&n.to_le_bytes());
+            for i in 0..n {
+                let nm = format!("p{}", i);
+                m.extend_from_slice(&(nm.len() as u16).to_le_bytes());
+                m.extend_from_slice(nm.as_bytes());
+                m.extend_from_slice(&5u16.to_le_bytes());
+                m.extend_from_slice(&(r.next() as u32).to_le_bytes());
+            }
+            let mut blob = Vec::new();
+            blob.extend_from_slice(&((m.len() + 4) as u32).to_le_bytes());
+            blob.extend_from_slice(&m);
+            Some(blob)
         } else {
             None
         },
@@ -518,6 +541,7 @@ pub fn gen_spec(r: &mut Rng) -> SpriteSpec {
             s.sprite_ud = user_data(r, true).or(Some(UserData {
                 text: Some("sprite".into()),
                 color: None,
+                props: None,
             }));
         }
     }
@@ -799,13 +823,16 @@ impl Buf {
 
 fn ud_chunk(ud: &UserData) -> (u16, Vec<u8>) {
     let mut b = Buf(Vec::new());
-    let flags = ud.text.is_some() as u32 | (ud.color.is_some() as u32) << 1;
+    let flags = ud.text.is_some() as u32 | (ud.color.is_some() as u32) << 1 | (ud.props.is_some() as u32) << 2;
     b.u32(flags);
     if let Some(t) = &ud.text {
         b.string(t);
     }
     if let Some(c) = &ud.color {
         b.bytes(c);
+    }
+    if let Some(p) = &ud.props {
+        b.bytes(p);
     }
     (0x2020, b.0)
 }
@@ -1021,6 +1048,7 @@ pub fn encode(s: &SpriteSpec, opts: &EncOpts) -> Vec<u8> {
                 let ud = t.ud.clone().unwrap_or(UserData {
                     text: None,
                     color: None,
+                    props: None,
                 });
                 f0.push(ud_chunk(&ud));
             }
@@ -1579,6 +1607,7 @@ pub fn apply_bug(s: &mut SpriteSpec, bug: &str, r: &mut Rng, scale: usize) -> St
                     Some(UserData {
                         text: Some("x".into()),
                         color: None,
+                        props: None,
                     })
                 } else {
                     None
@@ -1610,6 +1639,31 @@ pub fn apply_bug(s: &mut SpriteSpec, bug: &str, r: &mut Rng, scale: usize) -> St
                     blend: 0,
                     opacity: 255,
                     name: String::new(),
+                    ud: None,
+                });
+            }
+            // half of the time the chain is followed by a layer that closes (almost) all levels at
+            // once, and by one that reopens a level below it
+            if r.chance(1, 2) {
+                let lv = r.below(3) as u16;
+                s.layers.push(LayerSpec {
+                    flags: 1,
+                    kind: 1,
+                    tileset: 0,
+                    level: lv.min(n.saturating_sub(1) as u16),
+                    blend: 0,
+                    opacity: 255,
+                    name: "after".into(),
+                    ud: None,
+                });
+                s.layers.push(LayerSpec {
+                    flags: 1,
+                    kind: 0,
+                    tileset: 0,
+                    level: lv.min(n.saturating_sub(1) as u16) + 1,
+                    blend: 0,
+                    opacity: 255,
+                    name: "child".into(),
                     ud: None,
                 });
             }
